@@ -8,6 +8,8 @@ import Kitoken.Spec.Split
 import Kitoken.Spec.CharsMap
 import Kitoken.Spec.Normalize
 import Kitoken.Spec.Compose
+import Kitoken.Model.DefCodec
+import Kitoken.Model.Export
 namespace Kitoken.Driver
 
 open Kitoken Std
@@ -544,6 +546,66 @@ def handleRoundTrip (st : State) (args : List String) (impl : List String) : Str
         | _ => "FAILS not-total"
       s!"{model} || {verdict}"
     | _, _, _ => "BAD-OP"
+  | _ => "BAD-OP"
+
+end Kitoken.Driver
+
+namespace Kitoken.Driver
+open Kitoken Std
+
+def regexOracle (tab : List OracleEntry) : Bytes → Option Bool := fun p =>
+  (tab.find? fun e => e.kind == "regex_new" && e.param == p).map fun e => e.output == [1]
+
+/-- `DESER <bytes>`: read a native file and write it back (`to_vec (from_slice bytes)`). -/
+def handleDeser (args : List String) (impl : List String) : String :=
+  let (args, tab) := splitOracle args
+  match args with
+  | [hex] =>
+    match parseHex hex with
+    | some bs =>
+      let model := match DefCodec.fromSlice (regexOracle tab) bs with
+        | some d => s!"OK {toHex (DefCodec.toVec d)}"
+        | none => "ERR"
+      -- C14 verdict: a file that the implementation accepts must re-serialize to bytes that read
+      -- back to the same bytes again (idempotence of the round trip), judged with the model codec
+      let verdict := match impl with
+        | ["OK", out] =>
+          (match parseHex out with
+            | some o =>
+              (match DefCodec.fromSlice (regexOracle tab) o with
+                | some d' => if DefCodec.toVec d' == o then "HOLDS" else "FAILS reserialize-differs"
+                | none => "FAILS own-output-unreadable")
+            | none => "NO-VERDICT")
+        | ["ERR"] => "HOLDS"
+        | _ => "FAILS panic"
+      s!"{model} || {verdict}"
+    | none => "BAD-OP"
+  | _ => "BAD-OP"
+
+def idPerm {α : Type} (l : List α) : List α := l
+
+/-- `TODEF <bytes>`: load a native file, build the tokenizer, export its definition, serialize. -/
+def handleToDef (args : List String) (impl : List String) : String :=
+  let (args, tab) := splitOracle args
+  match args with
+  | [hex] =>
+    match parseHex hex with
+    | some bs =>
+      let model := match DefCodec.fromSlice (regexOracle tab) bs with
+        | none => "ERR deser"
+        | some d =>
+          match Tokenizer.new d with
+          | .error _ => "ERR init"
+          | .ok _ =>
+            match exportDefinition d idPerm idPerm idPerm with
+            | .ok d' => s!"OK {toHex (DefCodec.toVec d')}"
+            | .err _ => "ERR export"
+            | .panic _ => "PANIC"
+      let verdict := match impl with
+        | "PANIC" :: _ => "FAILS panic"
+        | _ => "HOLDS-NA"
+      s!"{model} || {verdict}"
+    | none => "BAD-OP"
   | _ => "BAD-OP"
 
 end Kitoken.Driver
